@@ -9,6 +9,8 @@
 //                impl ReaderRef<RS> for Sheets<RS>: worksheet_range_ref
 //                open_workbook_auto_from_rs
 //   items        enum Error (errors.rs), enum Sheets (auto.rs), Metadata / Sheet / HeaderRow / Range / Data / DataRef ...
+// Not reached: `open_workbook_auto` (path based: extension table, then the same trial order through `open_workbook` = File::open + R::new;
+// needs Path / OsStr / File stand-ins); `from_err!` impls of errors.rs (not used by the code under contract: auto.rs maps errors explicitly).
 //
 // How the generic layers are specified.  The traits `Reader` / `ReaderRef` are opened verbatim (`//@@ impl src/lib.rs "trait Reader"`);
 // their required methods get *abstract relational* contracts over spec members of the trait:
@@ -456,19 +458,19 @@ pub open spec fn un_vba<'a, T, E>(r: Option<Result<T, Error>>, un: spec_fn(Resul
             r is Some && r->Some_0 is Err ==> error_of_format(r->Some_0->Err_0, *old(self)),
 //@@ closure 0
     -> (res: Result<Cow<'_, VbaProject>, Error>) ensures
-        //# C07.auto_vba_error_wrapped
+        //# C07.auto_vba_error_wrapped_xls
         res == map_xls(vba)
 //@@ closure 1
     -> (res: Result<Cow<'_, VbaProject>, Error>) ensures
-        //# C07.auto_vba_error_wrapped
+        //# C07.auto_vba_error_wrapped_xlsx
         res == map_xlsx(vba)
 //@@ closure 2
     -> (res: Result<Cow<'_, VbaProject>, Error>) ensures
-        //# C07.auto_vba_error_wrapped
+        //# C07.auto_vba_error_wrapped_xlsb
         res == map_xlsb(vba)
 //@@ closure 3
     -> (res: Result<Cow<'_, VbaProject>, Error>) ensures
-        //# C07.auto_vba_error_wrapped
+        //# C07.auto_vba_error_wrapped_ods
         res == map_ods(vba)
 //@@ end
 //@@ fn src/auto.rs "Reader<RS> for Sheets<RS>::metadata" props=C16,C07 ret=r
